@@ -364,6 +364,19 @@ class LaplaceTransformer(UnilateralForwardTransformer):
 
         expr = expr.replace(sym.DiracDelta, unscale_delta)
 
+        def clip_step(arg, *h0):
+            # Heaviside(a * t + b) is 1 for all t >= 0 if a > 0 and b > 0;
+            # the unilateral transform ignores t < 0.
+            try:
+                scale, shift = scale_shift(arg, t)
+            except Exception:
+                return sym.Heaviside(arg, *h0)
+            if scale.is_positive and shift.is_positive:
+                return sym.S.One
+            return sym.Heaviside(arg, *h0)
+
+        expr = expr.replace(sym.Heaviside, clip_step)
+
         if expr.has(sym.Heaviside(t)):
             return self.integrate_0(expr.replace(sym.Heaviside(t), 1), t, s) * const
 
